@@ -621,6 +621,40 @@ class Emitter:
             return ('void ' + decl).strip()
         raise NotImplementedError(t)
 
+    def sizeof(self, t):
+        """size in bytes of an LLVM type under the x86-64 data layout (natural alignment), or -1 if unknown"""
+        def sa(t):
+            r = self.resolve(t)
+            k = r[0]
+            if k == 'int':
+                n = max(1, (r[1] + 7) // 8)
+                return n, min(n, 8) if n in (1, 2, 4, 8) else 8
+            if k == 'ptr':
+                return 8, 8
+            if k == 'double':
+                return 8, 8
+            if k == 'float':
+                return 4, 4
+            if k == 'array':
+                s1, a1 = sa(r[2])
+                return s1 * r[1], a1
+            if k == 'struct':
+                off, al = 0, 1
+                for f in r[1]:
+                    s1, a1 = sa(f)
+                    if not r[2]:
+                        off = (off + a1 - 1) // a1 * a1
+                        al = max(al, a1)
+                    off += s1
+                if not r[2]:
+                    off = (off + al - 1) // al * al
+                return off, al
+            raise NotImplementedError(r)
+        try:
+            return sa(t)[0]
+        except NotImplementedError:
+            return -1
+
     def contains_array(self, t, depth=0):
         r = self.resolve(t)
         if r[0] == 'array':
@@ -1356,6 +1390,18 @@ class FnEmitter:
                     return ['%s = 0;' % dst]
                 return []
             if nm.startswith('memcpy.') or nm.startswith('memmove.'):
+                # a whole-object copy between two pointers of the same struct type is emitted as a struct assignment:
+                # CBMC keeps it field-wise (constants propagate); a byte-wise memcpy turns the object into byte_extracts
+                def typed(v):
+                    if v[0] != 'local':
+                        return None
+                    dd = self.defs.get(v[1])
+                    if dd and dd['op'] == 'bitcast' and dd['frm'][0][0] == 'ptr' and em.resolve(dd['frm'][0][1])[0] == 'struct':
+                        return dd['frm']
+                    return None
+                td, ts = typed(args[0][1]), typed(args[1][1])
+                if td and ts and td[0] == ts[0] and args[2][1][0] == 'int' and args[2][1][1] == em.sizeof(td[0][1]):
+                    return ['*%s = *%s;' % (self.val(*td), self.val(*ts))]
                 return ['%s(%s, %s, %s);' % ('memcpy' if nm.startswith('memcpy') else 'memmove', av[0], av[1], av[2])]
             if nm.startswith('memset.'):
                 return ['memset(%s, %s, %s);' % (av[0], av[1], av[2])]
